@@ -33,7 +33,7 @@ class Traps(object):
     def __init__(self):
         self.unhandled = []  # (exception type name, short text)
         self.errors_logged = []
-        self.second_firings = []  # (innermost afkak frame "file:function", brief stack)
+        self.second_firings = []  # (innermost afkak frame "file:function", brief stack, id of the Deferred)
         self._handler = _ListHandler(self.errors_logged)
         self._orig_start = None
 
@@ -74,7 +74,7 @@ class Traps(object):
                                 where = tag
                         fr = fr.f_back
                     if where is not None:
-                        traps.second_firings.append((where, " < ".join(stack)))
+                        traps.second_firings.append((where, " < ".join(stack), id(d)))
                 except Exception:
                     pass
             return orig(d, result)
